@@ -46,6 +46,9 @@ def instances(tier, seed):
     # hard selection asked of a Gumbel block, evaluated in eval mode (no noise): "under hard selection it equals the same metric on the exported network"
     for s in specs[:3]:
         out.append({'id': f'{snlib.prog_id(s)}:full=1:gs_hard_eval', 'spec': s, 'full': True, 'mode': 'gs_hard_eval', 'wseed': seed})
+    # hard Gumbel sampling in training mode: the cost is weighted by the SAMPLED one-hot (which need not sit at the largest raw coefficient)
+    for s in (specs[0], specs[3]):
+        out.append({'id': f'{snlib.prog_id(s)}:full=0:gs_hard_train', 'spec': s, 'full': False, 'mode': 'gs_hard_train', 'wseed': seed})
     return out
 
 
@@ -111,17 +114,29 @@ def exported_counts(exported_real, shape):
 
 
 def concrete_case(rec):
+    if rec['mode'] == 'gs_hard_train':
+        # the sampled one-hot depends on the noise: several seeds, the first one on which cost and coefficient-weighted mix disagree is reported
+        out = None
+        for sd in range(24):
+            out = _concrete_case(rec, sd)
+            if any(abs(out['got'][m] - out['mix'][m]) > 1e-4 * max(1, abs(out['mix'][m])) for m in out['got']):
+                return out
+        return out
+    return _concrete_case(rec, 0)
+
+
+def _concrete_case(rec, rng_seed=0):
     from plinio.methods import SuperNet
     spec, full, mode = rec['spec'], rec['full'], rec['mode']
     sn, model, shape = snlib.make_sn(spec, rec.get('wseed', 0), cost=_cost_specs(), full_cost=full)
     snlib.set_alphas(sn, rec['alphas'])
     T = float(Fraction(rec.get('temperature', 1)))
-    if mode == 'gs_hard_eval':
+    if mode in ('gs_hard_eval', 'gs_hard_train'):
         for _, c in snlib.combiners(sn):
             c.sample_alpha = c.sample_alpha_gs
-        sn.eval()
-    sn.update_softmax_options(temperature=T, hard=(mode in ('hard', 'rewrap', 'gs_hard_eval')))
-    torch.manual_seed(0)
+        sn.train(mode == 'gs_hard_train')
+    sn.update_softmax_options(temperature=T, hard=(mode in ('hard', 'rewrap', 'gs_hard_eval', 'gs_hard_train')))
+    torch.manual_seed(rng_seed)
     with torch.no_grad():
         sn(torch.zeros((1,) + tuple(shape)))
     got = {m: float(sn.get_cost(m)) for m in ('params', 'ops')}
@@ -176,11 +191,11 @@ def run_instance(p):
         for _, c in combs:
             c.sample_alpha = c.sample_alpha_gs
         sn.train()
-    if mode == 'gs_hard_eval':
+    if mode in ('gs_hard_eval', 'gs_hard_train'):
         for _, c in combs:
             c.sample_alpha = c.sample_alpha_gs
-        sn.eval()
-    sn.update_softmax_options(hard=(mode in ('hard', 'gs_hard_eval')))
+        sn.train(mode == 'gs_hard_train')
+    sn.update_softmax_options(hard=(mode in ('hard', 'gs_hard_eval', 'gs_hard_train')))
     # cheapest / most expensive selection (over all winner tuples)
     rng = {}
     for m in ('params', 'ops'):
